@@ -601,9 +601,12 @@ fn judge_step(step: &Step, obs: &mut Obs) -> CheckResult {
   };
   let first_fault = calls.iter().position(|c| c.injected);
   if let Some(i) = first_fault {
+    obs.label(format!("{op}-first-fault-at-call-{}", i.min(4)));
     if target_present || calls[..i].iter().any(|c| c.ok) {
       obs.nontrivial();
       obs.label("rollback-branch");
+      // which way out the operation took once it had to roll back (independent of the order of its storage calls)
+      obs.label(format!("{op}-rollback={res}"));
     }
   }
 
@@ -1051,20 +1054,22 @@ pub fn run(ctx: &mut Ctx) {
   ctx.exhaustive("tree-sequences", move || tree_iter(sequence_shapes(len)), check);
   ctx.proptest("histories", ctx.pick(20_000, 400_000), history_strategy, check);
 
-  // every rollback arm of both operations was exercised
+  // every way out of both operations was exercised: success, failure before anything changed, failure after a
+  // successful earlier storage call (rolled back, or reported as a failed undo). The classes do not name the call
+  // sequence (it is recorded as `generate[..]=..` / `purge[..]=..` for the evidence only), so a reordering of the
+  // storage calls that keeps the property does not starve them.
   for class in [
-    "tree-generate:generate[generate,insert_key_id]=ok",
-    "tree-generate:generate[generate!]=err",
-    "tree-generate:generate[generate,insert_key_id!,delete]=err",
-    "tree-generate:generate[generate,insert_key_id!,delete!]=undo-failed",
-    "tree-generate:generate[generate,delete]=err",
-    "tree-generate:generate[generate,delete!]=undo-failed",
-    "tree-purge:purge[get_key_id,delete,delete_key_id]=ok",
-    "tree-purge:purge[get_key_id!]=err",
-    "tree-purge:purge[get_key_id,delete!,delete_key_id,insert_key_id]=err",
-    "tree-purge:purge[get_key_id,delete!,delete_key_id,insert_key_id!]=undo-failed",
-    "tree-purge:purge[get_key_id,delete!,delete_key_id!]=err",
-    "tree-purge:purge[get_key_id,delete,delete_key_id!]=undo-failed",
+    "tree-generate:generate-ok",
+    "tree-generate:generate-first-fault-at-call-0",
+    "tree-generate:generate-first-fault-at-call-1",
+    "tree-generate:generate-rollback=err",
+    "tree-generate:generate-rollback=undo-failed",
+    "tree-purge:purge-ok",
+    "tree-purge:purge-first-fault-at-call-0",
+    "tree-purge:purge-first-fault-at-call-1",
+    "tree-purge:purge-first-fault-at-call-2",
+    "tree-purge:purge-rollback=err",
+    "tree-purge:purge-rollback=undo-failed",
     "tree-purge:purge-natural-storage-error",
   ] {
     ctx.require_class(class, 2);
